@@ -100,4 +100,65 @@ def run_part(rep, ctx):
                       {'kind': 'M', 'input': p['src'], 'original_gen': p['gen'],
                        'correspondence': {'model_function': 'DetCases.analyze_lines', 'rust_function': 'analyze_for_*'},
                        'impl_lines': {DETS[k]: r['lines'][DETS[k]] for k in lm}, 'detector_level': True}, no_input=True)
+    found = dir_level(rep, ctx, out) or found
     return found
+
+
+def dir_level(rep, ctx, out):
+    """C02 at the level of a directory run: the lines analyze_dir records for a file are the lines analyze_for_* reports
+    for that file alone (which the part above has compared with the specification) - whatever white space the file
+    begins or ends with, whatever its line ends are"""
+    import os, shutil
+    from checks import dir_common as dc
+    sel = [(p, r) for p, r, dm, lm, ex in out
+           if r.get('hang') is None and all(r['lines'][n] != 'PANIC' for n in DETS) and len(p['src']) < 5000]
+    # leading blank lines / trailing blanks / CRLF in front: what a trimming or re-encoding reader would change
+    chosen = []
+    for p, r in sel:
+        s = p['src']
+        if s[:1] in ('\n', '\r', ' ', '\t') or s != s.rstrip() or '\r\n' in s or p['gen'].startswith(('relayout:', 'special:')):
+            chosen.append((p, r))
+    chosen = chosen[:150]
+    if not chosen:
+        return False
+    root = os.path.join(dc.FSROOT, 'c02dir-%d' % os.getpid())
+    shutil.rmtree(root, ignore_errors=True)
+    os.makedirs(os.path.join(root, 'sub'))
+    for i, (p, r) in enumerate(chosen):
+        d = root if i % 2 == 0 else os.path.join(root, 'sub')
+        open(os.path.join(d, 'f%04d.sol' % i), 'w', encoding='utf-8', newline='').write(p['src'])
+    hz = dc.Harness(ctx.harness)
+    bad = []
+    n_cmp = 0
+    try:
+        from checks.c03 import CAT_PATTERNS
+    except Exception:
+        CAT_PATTERNS = None
+    cats = {'opt': DETS[:23], 'vul': DETS[23:27], 'qa': DETS[27:]}
+    for cat, names in cats.items():
+        o = hz.req('dir %s %s %s' % (dc.hx(root), cat, ','.join(names)))
+        listing, impl = dc.parse_dir_output(o)
+        if impl == 'PANIC':
+            bad.append((None, cat, 'analyze_dir panicked', None, None))
+            continue
+        got = {}
+        for pat, entries in impl:
+            for fname, lines in entries:
+                got[(pat, fname.decode())] = lines
+        for i, (p, r) in enumerate(chosen):
+            for n in names:
+                want = r['lines'][n]
+                have = got.get((n, 'f%04d.sol' % i), [])
+                n_cmp += 1
+                if want != have:
+                    bad.append((p, n, 'analyze_dir records lines %s for the file, analyze_for_* reports %s for the same text' % (have, want), have, want))
+    hz.close()
+    shutil.rmtree(root, ignore_errors=True)
+    rep.coverage['detector_level']['directory_run_comparisons'] = n_cmp
+    rep.coverage['detector_level']['directory_run_files'] = len(chosen)
+    rep.coverage['detector_level']['directory_run_mismatches'] = len(bad)
+    for p, n, what, have, want in bad[:2]:
+        rep.violation('%s: %s' % (n, what),
+                      {'kind': 'S', 'input': p['src'] if p else None, 'detector': n, 'lines_in_directory_run': have, 'lines_alone': want,
+                       'mode': 'directory', 'detector_level': True, 'n_failing': len(bad)})
+    return bool(bad)
